@@ -192,16 +192,27 @@ pub fn scenarios(prop: &str, thorough: bool) -> Vec<Scenario> {
                     });
                 }
             }
-            // (b) interleaved: an injector thread races the edits, then everything drains
+            // (b) interleaved: an injector thread (a writer that can be suspended between reserving
+            // and publishing) races the edits / restarts, the new stream gets items of its own,
+            // then everything drains
             for pool in [1usize, 2] {
                 for (xi, x) in [UOp::Reparse(0, "ab"), UOp::Reparse(0, "b"), UOp::Restart(false), UOp::Restart(true)].iter().enumerate() {
+                    let mut u = vec![UOp::Reparse(0, "a"), UOp::Tick, x.clone()];
+                    if xi >= 2 {
+                        u.push(UOp::Extend(vec![it(20, "a"), it(21, "xa"), it(22, "b"), it(23, "ab")]));
+                    }
+                    u.push(UOp::Tick);
+                    if thorough {
+                        u.push(UOp::Reparse(0, if xi == 0 { "abx" } else { "a" }));
+                    }
+                    u.push(UOp::Drain(8));
                     v.push(Scenario {
-                        name: format!("C07b/pool{pool}/x{xi}"),
+                        name: format!("Bs/C07b/pool{pool}/x{xi}"),
                         pool_threads: pool,
                         columns: 1,
                         preload: vec![it(100, "ab"), it(101, "b"), it(102, "a")],
-                        u: vec![UOp::Reparse(0, "a"), UOp::Tick, x.clone(), UOp::Tick, UOp::Drain(8)],
-                        injectors: vec![(true, vec![IOp::Push(it(1, "ab")), IOp::Push(it(2, "xa"))])],
+                        u,
+                        injectors: vec![(true, if thorough { vec![IOp::Push(it(1, "ab")), IOp::Push(it(2, "xa"))] } else { vec![IOp::Push(it(1, "ab"))] })],
                         slots: 0,
                     bound: 0,
                     fine: true,
@@ -211,6 +222,28 @@ pub fn scenarios(prop: &str, thorough: bool) -> Vec<Scenario> {
             }
         }
         "C12" => {
+            // small scripts with a suspended writer of the old stream, explored with a higher bound
+            for pool in [1usize, 2] {
+                for p in ["", "a"] {
+                    for b1 in [true, false] {
+                        if !thorough && pool == 2 && !p.is_empty() {
+                            continue;
+                        }
+                        v.push(Scenario {
+                            name: format!("Bs/pool{pool}/p={p:?}/clear={b1}"),
+                            pool_threads: pool,
+                            columns: 1,
+                            preload: vec![it(100, "a"), it(101, "ab")],
+                            u: vec![UOp::Reparse(0, p), UOp::Tick, UOp::Restart(b1), UOp::Extend(vec![it(20, "a"), it(21, "xa"), it(22, "ab")]), UOp::Tick, UOp::Drain(6)],
+                            injectors: vec![(true, vec![IOp::Push(it(1, "a"))])],
+                            slots: 0,
+                            bound: 0,
+                            fine: true,
+                            flag_points: false,
+                        });
+                    }
+                }
+            }
             for pool in [1usize, 2] {
                 for p in ["", "a"] {
                     for b1 in [true, false] {
@@ -314,8 +347,21 @@ pub fn scenarios(prop: &str, thorough: bool) -> Vec<Scenario> {
         s.bound = match (prop, thorough) {
             ("C13", false) => 1,
             ("C13", true) => 2,
-            ("C07", false) | ("C20", _) => 0,
-            ("C07", true) => 1,
+            ("C20", _) => 0,
+            ("C07", false) => {
+                if small {
+                    1
+                } else {
+                    0
+                }
+            }
+            ("C07", true) => {
+                if small {
+                    2
+                } else {
+                    1
+                }
+            }
             (_, false) => {
                 if small {
                     1
